@@ -504,6 +504,24 @@ impl AssetCategorizer {
         Ok(tx_size)
     }
 
+    //the last fee estimate must leave the finished proposal balanced and within the size limit
+    pub(crate) fn check_finished_tx_proposal(
+        &self,
+        tx_proposal: &TxProposal,
+        tx_size: usize,
+    ) -> Result<(), JsError> {
+        if tx_proposal.get_need_ada()? > Coin::zero() {
+            return Err(JsError::from_str("Not enough funds"));
+        }
+        if tx_proposal.get_unused_ada()? > Coin::zero() {
+            return Err(JsError::from_str("Unable to balance transaction"));
+        }
+        if tx_size > (self.config.max_tx_size as usize) {
+            return Err(JsError::from_str("Transaction size is bigger than max tx size"));
+        }
+        Ok(())
+    }
+
     fn recalculate_outputs(&self, tx_proposal: &mut TxProposal) -> Result<(), JsError> {
         let used_utxos = &tx_proposal.used_utoxs;
         for output in tx_proposal.tx_output_proposals.iter_mut() {
